@@ -460,6 +460,35 @@ Definition is_ok {A} (r : ares A) : bool := match r with AOk _ => true | APanic 
 Definition accessors_ok (m : kvs) : bool :=
   is_ok (r_architecture m) && is_ok (r_kind m) && is_ok (r_chat_template m) && is_ok (r_file_type m) && is_ok (r_parameter_count m).
 
+(** the array accessors KV.Strings / KV.Uints / KV.Floats (model-load path): [keyValue(kv, key, &array{})], then for i < size:
+    [values[i].(T)] - an index panic when the values were not collected (size above maxArraySize), an assertion panic on an
+    element of another type; a missing key or a value that is not an array gives the empty default *)
+Definition arr_elems {T} (proj : val -> option T) (m : kvs) (key : str) : ares (list T) :=
+  match kv_get (key_for m key) m with
+  | Some (VArr n vals) =>
+    match vals with
+    | None => if n =? 0 then AOk [] else APanic PIndex
+    | Some vs =>
+      (fix go (l : list val) : ares (list T) :=
+         match l with
+         | [] => AOk []
+         | v :: r => match proj v with
+                     | None => APanic PAssert
+                     | Some x => match go r with AOk xs => AOk (x :: xs) | APanic p => APanic p end
+                     end
+         end) vs
+    end
+  | _ => AOk []
+  end.
+Definition k_tokens : str := [116;111;107;101;110;105;122;101;114;46;103;103;109;108;46;116;111;107;101;110;115].        (* tokenizer.ggml.tokens *)
+Definition k_token_type : str := [116;111;107;101;110;105;122;101;114;46;103;103;109;108;46;116;111;107;101;110;95;116;121;112;101].    (* tokenizer.ggml.token_type *)
+Definition k_scores : str := [116;111;107;101;110;105;122;101;114;46;103;103;109;108;46;115;99;111;114;101;115].        (* tokenizer.ggml.scores *)
+Definition val_i32 (v : val) : option N := match v with VNum 5 x => Some x | _ => None end.
+Definition val_f32 (v : val) : option N := match v with VNum 6 x => Some x | _ => None end.
+Definition r_strings (m : kvs) (key : str) : ares (list str) := arr_elems val_str m key.
+Definition r_uints (m : kvs) (key : str) : ares (list N) := arr_elems val_i32 m key.     (* Uints asserts int32 elements *)
+Definition r_floats (m : kvs) (key : str) : ares (list N) := arr_elems val_f32 m key.
+
 (** ggml.DetectContentType as its callers use it: the first four bytes of the blob (server code hands it a 4-byte buffer
     or a bytes.Buffer of capacity >= 512, so a shorter blob reads as zero-padded), little endian.
     0 unknown, 1 ggml, 2 ggmf, 3 ggjt, 4 ggla, 5 gguf *)
